@@ -20,6 +20,7 @@ EXPLANATION = (
     "their midpoints and the edges come from cleaner_range(min origin, max origin, dh); D6 a spacing that may be an "
     "inexact float difference of coordinates is snapped before it scales the integer edge grid; D7 degenerate "
     "one-row / one-column lattices: a coordinate edge array of a single edge must not be binned open-ended. "
+    "Round 5: D1.double no conversion of origins, edges or coordinates to a narrower numeric type in regions.py / calc.py. "
     "NOT decided: which side of an edge a particular float64 lands on, the 1e-12 tolerance band, the shipped region files.")
 CLAUSES = {'D1': 'single partition, axis order, layer roles', 'D2': 'who may bin coordinates', 'D3': 'sentinel rejection',
            'D4': 'mask polarity', 'D5': 'midpoint hashing and edge generation', 'D6': 'exactness of the lattice step',
